@@ -3,7 +3,7 @@
 check (quick tier), require a VIOLATION naming the expected rule, revert.  Mutants are only compiled
 (cargo check through the fact extractor), never run.
 
-usage: run_mutants.py [--prop C06] [--id name] [--list]
+usage: run_mutants.py [--prop C06] [--id name] [--match substring] [--list]
 """
 import json
 import os
@@ -79,7 +79,8 @@ def main():
     args = sys.argv[1:]
     prop = args[args.index('--prop') + 1] if '--prop' in args else None
     mid = args[args.index('--id') + 1] if '--id' in args else None
-    sel = [m for m in MUTANTS if (not prop or m['prop'] == prop) and (not mid or m['id'] == mid)]
+    sub = args[args.index('--match') + 1] if '--match' in args else None
+    sel = [m for m in MUTANTS if (not prop or m['prop'] == prop) and (not mid or m['id'] == mid) and (not sub or sub in m['id'])]
     if '--list' in args:
         for m in sel:
             print(m['prop'], m['id'])
